@@ -88,6 +88,22 @@ class P:
                     stmts.append(safe_expr(rng, 2))
             stmts.append(("list", [("ref", nm) for nm in NAMES[:4]]))
             items.append(self.mk(stmts, ctx, PT))
+        # names bound to context FUNCTIONS (read = call): as assignment targets (`f += 1` reads f by calling it, then binds a plain
+        # value to the name), as operands, re-bound and read again
+        for _ in range(600 if tier == "quick" else 50000):
+            ctx = {nm: ("var", rng.choice(VALS[:6] + VALS[12:])) for nm in NAMES}
+            handlers = {}
+            for i, nm in enumerate(rng.sample(NAMES, rng.randint(1, 3))):
+                ctx[nm] = ("func", 40 + i)
+                handlers[40 + i] = ("count", [("ret", rng.choice(VALS[:6] + VALS[12:])) for _k in range(rng.randint(1, 3))])
+            stmts = []
+            for _k in range(rng.randint(1, 5)):
+                if rng.random() < 0.8:
+                    stmts.append(("bin", rng.choice(SETTERS[:4] + ["=", "+="]), ("ref", rng.choice(NAMES)), safe_expr(rng, rng.choice([0, 1, 2]))))
+                else:
+                    stmts.append(safe_expr(rng, 2))
+            stmts.append(("list", [("ref", nm) for nm in NAMES[:4]]))
+            items.append(self.mk(stmts, ctx, PT, handlers))
         # the target of a compound assignment assigned again inside its own right-hand side: `x op= e` is `x op e` with x read first
         for op in SETTERS[1:]:
             for inner in ("=", "+=", "*="):
@@ -104,16 +120,17 @@ class P:
                 if rng.random() < 0.8: ctx[nm] = ("var", rng.choice(VALS[:6] + VALS[12:] if rng.random() < 0.85 else VALS))
             stmts = [rnd_stmt(rng) for _ in range(rng.randint(1, 8))]
             items.append(self.mk(stmts, ctx, PT))
-        empties = [("EXEC:1:" + hx(""), ([], {})), ("EXEC:1:" + hx("unbound"), ([("ref", "unbound")], {}))]
+        empties = [("EXEC:1:" + hx(""), ([], {}, {})), ("EXEC:1:" + hx("unbound"), ([("ref", "unbound")], {}, {}))]
         return flow.mk_cases("assign", items) + flow.mk_cases("edge", empties)
 
-    def mk(self, stmts, ctx, PT):
+    def mk(self, stmts, ctx, PT, handlers=None):
         src = "; ".join(progs.render_min(s, PT) for s in stmts)
-        ops = ["CV:1:%s:%s" % (hx(k), speceval.to_proto_value(v[1])) for k, v in ctx.items()]
-        return (" ".join(ops + ["EXEC:1:" + hx(src)]), (stmts, ctx))
+        ops = ["H:%d:%s" % (h, speceval.to_proto_script(sc)) for h, sc in sorted((handlers or {}).items())]
+        ops += ["CV:1:%s:%s" % (hx(k), speceval.to_proto_value(v[1])) if v[0] == "var" else "CF:1:%s:%d" % (hx(k), v[1]) for k, v in ctx.items()]
+        return (" ".join(ops + ["EXEC:1:" + hx(src)]), (stmts, ctx, handlers or {}))
 
     def show(self, case):
-        stmts, ctx = case.meta
+        stmts, ctx, handlers = case.meta
         PT = progs.prec_table()
         return {"program": "; ".join(progs.render_min(s, PT) for s in stmts), "context": {k: str(v[1]) for k, v in ctx.items()}}
 
@@ -137,8 +154,8 @@ class P:
     def oracle(self, case, impl):
         d = values.split_exec(impl.split(" ")[-1])
         if d["cls"] not in ("OK", "ERR"): return "violates", "evaluation did not return: " + d["cls"]
-        stmts, ctx = case.meta
-        cls, val, fctx, _log = speceval.run_program(stmts, ctx, {})
+        stmts, ctx, handlers = case.meta
+        cls, val, fctx, _log = speceval.run_program(stmts, ctx, handlers)
         if cls == "SKIP":
             self.skipped += 1
             return "ok", ""
@@ -152,6 +169,12 @@ class P:
         if set(have) != set(want):
             return "violates", "context names differ: %s vs %s" % (sorted(unhx(k) for k in have), sorted(unhx(k) for k in want))
         for k, v in want.items():
+            if v[0] == "func":
+                if have[k] != "F%d" % v[1]:
+                    return "violates", "%s is bound to %s, reference: still the context function %d" % (unhx(k), have[k], v[1])
+                continue
+            if have[k].startswith("F"):
+                return "violates", "%s is still a context function (%s), reference binds %s" % (unhx(k), have[k], v[1])
             got = evalspec.from_proto(values.parse_value(have[k]))
             if not evalspec.seq(got, v[1]):
                 return "violates", "binding of %s is %s, reference %s" % (unhx(k), have[k], v[1])
